@@ -46,3 +46,30 @@ struct CBase { int id; explicit CBase(int i) : id(i) {} virtual ~CBase() {} virt
 struct CA : CBase { using CBase::CBase; XTL_DEFINE_CYCLIC_VISITABLE(CV) }; struct CB : CBase { using CBase::CBase; XTL_DEFINE_CYCLIC_VISITABLE(CV) };
 struct CVis : CV { int visit(CA& x) override { hook_record(301, x.id, 0, 0); return 31; } int visit(CB& x) override { hook_record(302, x.id, 0, 0); return 32; } };
 W w_cyclic(int64_t kind, int64_t* out) { CA a(3); CB b(4); CVis v; CBase* x = kind == 0 ? static_cast<CBase*>(&a) : static_cast<CBase*>(&b); out[0] = x->accept(v); }
+// ---- functor_dispatcher over basic_fast_dispatcher (static casting): symbolic registration history of up to 3 inserts, then one dispatch ----
+#include <functional>
+struct FBase { int id; explicit FBase(int i) : id(i) {} virtual ~FBase() {} virtual std::size_t get_class_index() const = 0; };
+struct FA : FBase { using FBase::FBase; XTL_IMPLEMENT_INDEXABLE_CLASS() }; struct FB : FBase { using FBase::FBase; XTL_IMPLEMENT_INDEXABLE_CLASS() }; struct FC : FBase { using FBase::FBase; XTL_IMPLEMENT_INDEXABLE_CLASS() };
+template <int H, class X, class Y> static void fh(X& x, Y& y, int& extra) { hook_record(H, x.id, y.id, extra); }
+using FD = xtl::functor_dispatcher<xtl::mpl::vector<FBase, FBase>, void, xtl::mpl::vector<int>, xtl::static_caster, xtl::basic_fast_dispatcher>;
+static inline void reg(FD& d, int64_t cell, int gen)
+{
+    switch (cell) {   // handler id = 1000*generation + 10*row + col  (generation distinguishes re-registration of the same cell: last one wins)
+        case 0: if (gen == 1) d.insert<FA, FA>(&fh<1011, FA, FA>); else if (gen == 2) d.insert<FA, FA>(&fh<2011, FA, FA>); else d.insert<FA, FA>(&fh<3011, FA, FA>); break;
+        case 1: if (gen == 1) d.insert<FA, FB>(&fh<1012, FA, FB>); else if (gen == 2) d.insert<FA, FB>(&fh<2012, FA, FB>); else d.insert<FA, FB>(&fh<3012, FA, FB>); break;
+        case 2: if (gen == 1) d.insert<FB, FA>(&fh<1021, FB, FA>); else if (gen == 2) d.insert<FB, FA>(&fh<2021, FB, FA>); else d.insert<FB, FA>(&fh<3021, FB, FA>); break;
+        case 3: if (gen == 1) d.insert<FC, FB>(&fh<1032, FC, FB>); else if (gen == 2) d.insert<FC, FB>(&fh<2032, FC, FB>); else d.insert<FC, FB>(&fh<3032, FC, FB>); break;
+        case 4: if (gen == 1) d.insert<FB, FC>(&fh<1023, FB, FC>); else if (gen == 2) d.insert<FB, FC>(&fh<2023, FB, FC>); else d.insert<FB, FC>(&fh<3023, FB, FC>); break;
+        default: break;   // no registration
+    }
+}
+W w_fast(int64_t r1, int64_t r2, int64_t r3, int64_t k1, int64_t k2, int64_t extra, int64_t* out)
+{
+    FA::get_class_static_index() = SIZE_MAX; FB::get_class_static_index() = SIZE_MAX; FC::get_class_static_index() = SIZE_MAX;   // one fresh dispatcher per hierarchy
+    FA a1(1), a2(2); FB b1(1), b2(2); FC c1(1), c2(2);
+    FBase* x = k1 == 0 ? static_cast<FBase*>(&a1) : k1 == 1 ? static_cast<FBase*>(&b1) : static_cast<FBase*>(&c1);
+    FBase* y = k2 == 0 ? static_cast<FBase*>(&a2) : k2 == 1 ? static_cast<FBase*>(&b2) : static_cast<FBase*>(&c2);
+    int e = static_cast<int>(extra);
+    try { FD d; reg(d, r1, 1); reg(d, r2, 2); reg(d, r3, 3); d.dispatch(*x, *y, e); out[0] = 0; out[1] = e; }
+    catch (std::bad_function_call&) { out[0] = 1; } catch (std::runtime_error&) { out[0] = 2; } catch (...) { out[0] = 3; }
+}
